@@ -144,45 +144,58 @@ pub fn replay_nest(rep: &mut Report, rec: &J) {
 		let mut req = rec.clone();
 		req["flexible"] = json!(flexible);
 		req["slice"] = json!(slice);
-		let mut child = std::process::Command::new(exe)
-			.arg("nest-child")
-			.stdin(std::process::Stdio::piped())
-			.stdout(std::process::Stdio::piped())
-			.stderr(std::process::Stdio::null())
-			.spawn()
-			.unwrap_or_else(|e| tool_error(&format!("spawn nest-child: {e}")));
-		child.stdin.take().unwrap().write_all(req.to_string().as_bytes()).unwrap();
 		rep.count("nest_calls");
 		let ctx = json!({"family": rec["name"], "n": rec["n"], "flexible": flexible, "slice_entry": slice, "stack_bytes": STACK, "build": build, "vector": rec});
 		// the child gets a generous time budget (a 2*10^6-deep document parses in well under a second):
 		// a parser that does not come back is data (C03: "never ... loops"), not a tool failure
 		let limit = std::env::var("JSV_NEST_S").ok().and_then(|s| s.parse::<u64>().ok()).unwrap_or(120);
-		let t0 = std::time::Instant::now();
-		let mut hung = false;
-		loop {
-			match child.try_wait() {
-				Ok(Some(_)) => break,
-				Ok(None) => {
-					if t0.elapsed().as_secs() > limit {
-						let _ = child.kill();
-						hung = true;
-						break;
+		// Ok(output) | Err(true) = did not return | Err(false) = died
+		let run_child = || -> Result<std::process::Output, (bool, String)> {
+			let mut child = std::process::Command::new(exe)
+				.arg("nest-child")
+				.stdin(std::process::Stdio::piped())
+				.stdout(std::process::Stdio::piped())
+				.stderr(std::process::Stdio::null())
+				.spawn()
+				.unwrap_or_else(|e| tool_error(&format!("spawn nest-child: {e}")));
+			child.stdin.take().unwrap().write_all(req.to_string().as_bytes()).unwrap();
+			let t0 = std::time::Instant::now();
+			loop {
+				match child.try_wait() {
+					Ok(Some(_)) => break,
+					Ok(None) => {
+						if t0.elapsed().as_secs() > limit {
+							let _ = child.kill();
+							let _ = child.wait();
+							return Err((true, String::new()));
+						}
+						std::thread::sleep(std::time::Duration::from_millis(20));
 					}
-					std::thread::sleep(std::time::Duration::from_millis(20));
+					Err(e) => tool_error(&format!("wait nest-child: {e}")),
 				}
-				Err(e) => tool_error(&format!("wait nest-child: {e}")),
 			}
-		}
-		if hung {
-			let _ = child.wait();
-			rep.mismatch("C03.hang", json!({"what": format!("parser did not return within {limit} s on a deeply nested document"), "input": ctx}));
-			continue;
-		}
-		let out = child.wait_with_output().unwrap();
-		if !out.status.success() {
-			rep.mismatch("C03.stack", json!({"what": "parser crashed (stack overflow / abort) on a deeply nested document inside a small fixed stack", "input": ctx, "status": format!("{:?}", out.status)}));
-			continue;
-		}
+			let out = child.wait_with_output().unwrap();
+			if !out.status.success() {
+				return Err((false, format!("{:?}", out.status)));
+			}
+			Ok(out)
+		};
+		// a stack overflow, an abort or a loop of the code under test happens every time; a machine that stalls or an OOM killer
+		// that picks the child does not: a failed run is repeated once and only counts if it fails again
+		let out = match run_child().or_else(|_| {
+			rep.count("nest_child_runs_repeated");
+			run_child()
+		}) {
+			Ok(out) => out,
+			Err((true, _)) => {
+				rep.mismatch("C03.hang", json!({"what": format!("parser did not return within {limit} s on a deeply nested document"), "input": ctx}));
+				continue;
+			}
+			Err((false, status)) => {
+				rep.mismatch("C03.stack", json!({"what": "parser crashed (stack overflow / abort) on a deeply nested document inside a small fixed stack", "input": ctx, "status": status}));
+				continue;
+			}
+		};
 		let got: J = match serde_json::from_slice(&out.stdout) {
 			Ok(j) => j,
 			Err(_) => {
